@@ -12,8 +12,9 @@ Transcribes the control flow of the real code (src/nunavut/lang/_common.py):
 * `_do_for_type_and_all` – first for `"all"`, then for the (lower-cased) id type;
 * `strop`              – encode, strop by keyword, strop by pattern, then the three dry-run re-verifications,
                          each followed by the language's failure handler (C / C++: `^_+([A-Z]?)` ↦ `_` +
-                         lower-cased letter + rest, else re-raise), whose result is *not* verified again by the
-                         earlier checks.
+                         lower-cased letter + rest, else re-raise); a token supplied by a handler goes through
+                         all three verifications once more, without a handler (this is the proposed fix; the
+                         code as found is `stropTraceBeforeFix`).
 The map `"any"` = concatenation of all lists (built by `_get_map_of_type_to_lists_of_patterns`) is data of
 the configuration (generated).
 -/
@@ -25,6 +26,13 @@ inductive Err where
   | illegalToken      -- RuntimeError "... yielded an illegal token after stropping"
   | unstableEncoding  -- RuntimeError "Unstable encoding ..."
 deriving DecidableEq, Repr
+
+instance [DecidableEq α] : DecidableEq (Except Err α) := fun a b =>
+  match a, b with
+  | .ok x, .ok y => if h : x = y then isTrue (by rw [h]) else isFalse (by intro e; cases e; exact h rfl)
+  | .error x, .error y => if h : x = y then isTrue (by rw [h]) else isFalse (by intro e; cases e; exact h rfl)
+  | .ok _, .error _ => isFalse (by intro e; cases e)
+  | .error _, .ok _ => isFalse (by intro e; cases e)
 
 /-- The language-specific failure handlers that exist in the code base. -/
 inductive Handler where
@@ -148,9 +156,11 @@ def recheck (bad : Bool) (h : Handler) (pending : Err) (s : Str) (fired : Bool) 
   else .ok (s, fired)
 
 /--
-`TokenEncoder.strop(tok, tyRaw)`: result and whether a failure handler produced it.
+`TokenEncoder.strop(tok, tyRaw)` as it was before the fix proposed in agent_out/C09/fix_handler_token_unverified.diff:
+result and whether a failure handler produced it.  A handler's token is checked only by the re-verifications that
+come *after* the one that invoked it.
 -/
-def stropTrace (cfg : Cfg) (tok : Str) (tyRaw : Str) : Except Err (Str × Bool) :=
+def stropTraceBeforeFix (cfg : Cfg) (tok : Str) (tyRaw : Str) : Except Err (Str × Bool) :=
   let ty := lowerAscii tyRaw
   if ty = tyAll then .error .valueError else
   let s1 := realPipeline cfg ty tok
@@ -165,8 +175,30 @@ def stropTrace (cfg : Cfg) (tok : Str) (tyRaw : Str) : Except Err (Str × Bool) 
   -- make sure stropping didn't result in encoding violations
   recheck (encodeDry cfg tyAll s3 || encodeDry cfg ty s3) cfg.encHandler .unstableEncoding s3 f3
 
+/-- The three dry runs once more, this time without a handler (the fix): pattern, keyword, encoding. -/
+def verify (cfg : Cfg) (ty : Str) (s : Str) : Except Err Str :=
+  if patDry cfg tyAll s || patDry cfg ty s then .error .illegalToken
+  else if isReserved cfg s then .error .illegalToken
+  else if encodeDry cfg tyAll s || encodeDry cfg ty s then .error .unstableEncoding
+  else .ok s
+
+/--
+`TokenEncoder.strop(tok, tyRaw)` (repaired): a token supplied by a failure handler is verified like any other.
+-/
+def stropTrace (cfg : Cfg) (tok : Str) (tyRaw : Str) : Except Err (Str × Bool) :=
+  match stropTraceBeforeFix cfg tok tyRaw with
+  | .error e => .error e
+  | .ok (r, false) => .ok (r, false)
+  | .ok (r, true) =>
+    match verify cfg (lowerAscii tyRaw) r with
+    | .ok r' => .ok (r', true)
+    | .error e => .error e
+
 def strop (cfg : Cfg) (tok : Str) (tyRaw : Str) : Except Err Str :=
   (stropTrace cfg tok tyRaw).map (·.1)
+
+def stropBeforeFix (cfg : Cfg) (tok : Str) (tyRaw : Str) : Except Err Str :=
+  (stropTraceBeforeFix cfg tok tyRaw).map (·.1)
 
 /-! ### the property's vocabulary -/
 
@@ -181,11 +213,6 @@ def isIdentStart (c : Nat) : Bool :=
 def isIdent : Str → Bool
   | [] => false
   | c :: t => isIdentStart c && t.all isWordChar
-
-/-- `re` matches at no position of `s` (incl. the end). -/
-def matchesNowhere (n : Nat) (re : Re) : Str → Bool
-  | [] => (matchR n re []).isEmpty
-  | c :: t => (matchR n re (c :: t)).isEmpty && matchesNowhere n re t
 
 /-- no encoding rule of `"all"` / `ty` matches anywhere in `s` -/
 def encodingFree (cfg : Cfg) (ty : Str) (s : Str) : Bool :=
